@@ -246,6 +246,12 @@ def run(ctx):
                   '`%s` runs only if the CHILD_SA is still tracked' % src(x)[:60],
                   key=('S3', 'delete-still-tracked', src(x.func)), site=ctx.site(ir, x))
 
+    # S3 (2.8 / 2.25.2): while an IKE_SA rekey is outstanding the old IKE_SA keeps serving CHILD_SA exchanges, so the
+    # CHILD_SAs are inherited by the successor at the moment the rekey commits - not when it is requested - or the
+    # exchanges that collide with the rekey leave the successor with a stale list
+    from .c10 import handover_rule
+    handover_rule(ctx, esc, 'S3')
+
     # ---------------------------------------------------------------- S4
     allowed_pm = {'InvalidSyntax', 'UnsupportedCriticalPayload'}
     for name in common.ENTRY_POINTS:
